@@ -89,6 +89,9 @@ func drive(ck *checks.Check, tier string) int {
 	var mu sync.Mutex
 	var wg sync.WaitGroup
 	checkErr := ""
+	if ck.Pre != nil {
+		ck.Pre(tier)
+	}
 	for i := 0; i < n; i++ {
 		wg.Add(1)
 		go func(i int) {
@@ -107,6 +110,9 @@ func drive(ck *checks.Check, tier string) int {
 			}
 			cmd := exec.Command(self, "-worker", ck.Prop, tier, strconv.Itoa(i), strconv.Itoa(n))
 			cmd.Env = append(os.Environ(), "VERIF_SCRATCH="+scratch, "GOTRACEBACK=all")
+			if ck.Env != nil {
+				cmd.Env = append(cmd.Env, ck.Env(i)...)
+			}
 			var out, errb bytes.Buffer
 			cmd.Stdout = &out
 			cmd.Stderr = &errb
@@ -165,7 +171,15 @@ func drive(ck *checks.Check, tier string) int {
 			dump := filepath.Join(rt.VerifDir, ".build", fmt.Sprintf("crash-%s-%d.txt", ck.Prop, i))
 			_ = os.MkdirAll(filepath.Dir(dump), 0o755)
 			_ = os.WriteFile(dump, []byte(strings.Join(lastLines, "\n")+"\n-----\n"+stderr), 0o644)
-			inAvfs := strings.Contains(stderr, "github.com/avfs/avfs")
+			// the goroutine that crashed is the first one of the dump ("[running]"): it decides the attribution
+			crashed := stderr
+			if j := strings.Index(crashed, "\ngoroutine "); j >= 0 {
+				crashed = crashed[j+1:]
+				if k := strings.Index(crashed, "\n\n"); k >= 0 {
+					crashed = crashed[:k]
+				}
+			}
+			inAvfs := strings.Contains(crashed, "github.com/avfs/avfs")
 			fatal := strings.Contains(stderr, "fatal error:") || strings.Contains(stderr, "panic:")
 			switch {
 			case timedOut:
@@ -183,6 +197,9 @@ func drive(ck *checks.Check, tier string) int {
 		}(i)
 	}
 	wg.Wait()
+	if ck.Post != nil {
+		ck.Post(tier, total)
+	}
 	if checkErr != "" {
 		fmt.Printf("CHECK-ERROR property=%s %s\n", ck.Prop, checkErr)
 		// still write evidence so that the failure is visible, but exit 2
